@@ -227,6 +227,11 @@ func (m ClientState) RestrictChain(cdc codec.BinaryCodec, store storetypes.KVSto
 		}
 		current = *tmpConsensus
 	}
+	// new and current are now the two children of the common ancestor, at height ti: the
+	// new branch starts with new itself, so its consensus state is rewritten as well
+	if !bytes.Equal(new.Hash().Bytes(), current.Hash().Bytes()) {
+		newHashes = append(newHashes, new.Hash())
+	}
 	for i := len(newHashes) - 1; i >= 0; i-- {
 		newTmp := store.Get(EthHeaderIndexKey(newHashes[i], ti.GetRevisionHeight()))
 		if newTmp == nil {
